@@ -2,7 +2,7 @@
 SHELL=/bin/bash
 export GOFLAGS=-mod=mod
 export GOPROXY=off
-.PHONY: all coq oracle harness clean
+.PHONY: all coq oracle harness harness-race clean
 all: coq oracle harness
 coq/Makefile: coq/_CoqProject
 	cd coq && coq_makefile -f _CoqProject -o Makefile >/dev/null
@@ -12,6 +12,8 @@ oracle: coq
 	$(MAKE) -C oracle
 harness:
 	cd harness && cp /repo/go.sum . && go build -tags verif -o bin/harness .
+harness-race:
+	cd harness && cp /repo/go.sum . && go build -race -tags verif -o bin/harness-race .
 clean:
 	-cd coq && [ -f Makefile ] && $(MAKE) clean; rm -f coq/Makefile coq/Makefile.conf
 	$(MAKE) -C oracle clean
